@@ -138,9 +138,9 @@ def wire(prog):
 def coq_prog(prog):
     out = []
     for o, v, k in prog:
-        op = {"fa": f"(AFetchAdd {v})", "ld": "ALoad", "sc": f"(AStoreConst {v})", "sr": f"(AStoreRegPlus {v})"}[o]
-        ct = {"n": "KNext", "r": "KRet", "riu": "KRetIfUntagged", "ru": "KRetUnit"}.get(k) or f"(KGoto {int(k[1:])})"
-        out.append(f"mkI {op} {ct}")
+        op = {"fa": f"(FiFetchAdd {v})", "ld": "FiLoad", "sc": f"(FiStoreConst {v})", "sr": f"(FiStoreRegPlus {v})"}[o]
+        ct = {"n": "FiKNext", "r": "FiKRet", "riu": "FiKRetIfUntagged", "ru": "FiKRetUnit"}.get(k) or f"(FiKGoto {int(k[1:])})"
+        out.append(f"FiI {op} {ct}")
     if not out:
         return "  [ ]"
     return "  [ " + ";\n    ".join(out) + " ]"
@@ -177,9 +177,9 @@ def program_file(traces_new, traces_reset, new, reset, err):
         lines.append("   (the empty programs below make every theorem about the allocator fail, as it must)")
     lines[-1] += " *)"
     lines += ["From ApolloVerif Require Import Base.Chars Mem.FileId.", "",
-              "Definition fileid_new_program : program :=", coq_prog(new or []) + ".", "",
-              "Definition fileid_reset_program : program :=", coq_prog(reset or []) + ".", "",
-              "Definition fileid_programs : programs := mkP fileid_new_program fileid_reset_program.", ""]
+              "Definition fileid_new_program : fi_program :=", coq_prog(new or []) + ".", "",
+              "Definition fileid_reset_program : fi_program :=", coq_prog(reset or []) + ".", "",
+              "Definition fileid_programs : fi_programs := FiP fileid_new_program fileid_reset_program.", ""]
     return "\n".join(lines)
 
 
